@@ -424,6 +424,8 @@ func (pc *PartitionContext) removeApplication(appID string) []*objects.Allocatio
 	if len(allocations) != 0 {
 		// track the number of allocations
 		pc.updateAllocationCount(-len(allocations))
+		// track the number of placeholder allocations
+		pc.updatePhAllocationCount(allocations)
 		for _, alloc := range allocations {
 			currentAllocationKey := alloc.GetAllocationKey()
 			node := pc.GetNode(alloc.GetNodeID())
